@@ -601,7 +601,7 @@ def obligations(prop, tier):
             for k1, k2 in (((1, 1), (2, 1), (2, 2)) if q else ((1, 1), (2, 1), (2, 2), (3, 2), (3, 3), (4, 2))):
                 out.append(LongestCommonPrefix(shared, k1, k2))
         for base in ("http://ex.org/", "ht", "", "https://", "http://", "urn:x", "https://ex.org/a#"):
-            for k in ((1, 2) if q else (1, 2, 3, 4)):
+            for k in ((1, 2, 3, 4) if q else (1, 2, 3, 4, 5)):
                 out.append(IriPattern(base, k))
         for base in ("https://", "http://", "http:/", "https:/", "http:", "https:", "h", "urn:", "a:"):
             out.append(IriPattern(base, 0))
@@ -626,7 +626,7 @@ def run_obligation(res, prop, name, findings, module="harness.strfn"):
     shims.install()
     ob = by_name(prop, name, module)
     conc_fn = getattr(importlib_import(module), "conc", None)
-    ex = Explorer(max_paths=40000, path_ops=20000)
+    ex = Explorer(max_paths=40000, path_ops=2000000, path_wall_s=180)
 
     def fn(ex):
         args = ob.build(ex)
